@@ -33,7 +33,15 @@ var mapKeys = []struct {
 	{"'a", "'a", "a", true}, {`"a"`, `"a"`, "a", false},
 	{"'b", "'b", "b", true}, {`"b"`, `"b"`, "b", false},
 	{"'c", "'c", "c", true}, {`"c"`, `"c"`, "c", false},
+	// never present in any map of the alphabet: the absent key, both spellings
+	{"'zz", "'zz", "zz", true}, {`"zz"`, `"zz"`, "zz", false},
 }
+
+const (
+	nWriteKeys = 6 // keys written by assoc/assoc! (a b c, both spellings)
+	keyAbsSym  = 6
+	keyAbsStr  = 7
+)
 
 // expr is the source text of the operation (without the binding).
 func (op Op) expr() string {
@@ -65,6 +73,42 @@ func (op Op) expr() string {
 		return "(assoc () 'a 1)"
 	case "c-get-nil":
 		return "(get () 'a)"
+	// shapes on which many non-mutating operations are no-ops
+	case "c-list1":
+		return "(list 1)"
+	case "c-vector1":
+		return "(vector 1)"
+	case "c-list-sorted":
+		return "(list 1 2 3)"
+	case "c-vector-sorted":
+		return "(vector 1 2 3)"
+	case "c-lit-sorted":
+		return "'(1 2 3)"
+	case "c-bytes0":
+		return `(to-bytes "")`
+	case "c-map0":
+		return "(sorted-map)"
+	// no-op argument shapes of non-mutating operations
+	case "assoc-same":
+		return "(assoc " + a + " " + mapKeys[op.I].src + " " + j + ")"
+	case "append-bytes-t0":
+		return "(append 'bytes " + a + ")"
+	case "append-bytes-str0":
+		return `(append-bytes ` + a + ` "")`
+	case "concat-list-e":
+		return "(concat 'list " + a + " (list))"
+	case "concat-vector-e":
+		return "(concat 'vector " + a + " (vector))"
+	case "concat-bytes-e":
+		return `(concat 'bytes ` + a + ` (to-bytes ""))`
+	case "select-all-list":
+		return "(select 'list (lambda (x) true) " + a + ")"
+	case "select-all-vector":
+		return "(select 'vector (lambda (x) true) " + a + ")"
+	case "reject-none-list":
+		return "(reject 'list (lambda (x) false) " + a + ")"
+	case "reject-none-vector":
+		return "(reject 'vector (lambda (x) false) " + a + ")"
 	// views
 	case "slice-list":
 		return "(slice 'list " + a + " " + i + " " + j + ")"
@@ -348,6 +392,26 @@ func apply(w0 *world, op Op) (outs []*world, expectErr bool) {
 		return one(w, m)
 	case "c-get-nil":
 		return one(w, w.newNil())
+	case "c-list1":
+		return one(w, w.newSeq(kList, ints(1)))
+	case "c-vector1":
+		return one(w, w.newSeq(kVec, ints(1)))
+	case "c-list-sorted":
+		return one(w, w.newSeq(kList, ints(1, 2, 3)))
+	case "c-vector-sorted":
+		return one(w, w.newSeq(kVec, ints(1, 2, 3)))
+	case "c-lit-sorted":
+		v := w.newSeq(kList, ints(1, 2, 3))
+		w.o(v).sealed = true
+		return one(w, v)
+	case "c-bytes0":
+		return one(w, w.newSeq(kBytes, nil))
+	case "c-map0":
+		return one(w, w.newObj(obj{k: kMap}))
+	case "append-bytes-t0", "append-bytes-str0":
+		return one(w, w.newSeq(kBytes, w.cellsCopy(A)))
+	case "select-all-list", "select-all-vector", "reject-none-list", "reject-none-vector":
+		return one(w, w.newSeq(seqKindOf(op.K), w.cellsCopy(A)))
 
 	case "slice-list", "slice-vector":
 		if A.k == kBytes {
@@ -402,8 +466,9 @@ func apply(w0 *world, op Op) (outs []*world, expectErr bool) {
 		return one(w, w.newSeq(kBytes, append(w.cellsCopy(A), vint(122))))
 	case "append-bytes2":
 		return one(w, w.newSeq(kBytes, append(w.cellsCopy(A), w.cellsCopy(B)...)))
-	case "concat-list", "concat-vector", "concat-bytes":
-		k := map[string]okind{"concat-list": kList, "concat-vector": kVec, "concat-bytes": kBytes}[op.K]
+	case "concat-list", "concat-vector", "concat-bytes", "concat-list-e", "concat-vector-e", "concat-bytes-e":
+		k := map[string]okind{"concat-list": kList, "concat-vector": kVec, "concat-bytes": kBytes,
+			"concat-list-e": kList, "concat-vector-e": kVec, "concat-bytes-e": kBytes}[op.K]
 		if k == kList && A.ln == 0 {
 			return one(w, w.newNil())
 		}
@@ -513,14 +578,17 @@ func apply(w0 *world, op Op) (outs []*world, expectErr bool) {
 	case "cons-store":
 		return one(w, w.newSeq(kList, append([]val{bv}, w.cellsCopy(A)...)))
 
-	case "assoc", "assoc!", "assoc-store", "assoc!-store":
+	case "assoc", "assoc!", "assoc-store", "assoc!-store", "assoc-same":
 		name, sym, v := "k", op.K == "assoc!-store", bv
-		if op.K == "assoc" || op.K == "assoc!" {
+		if op.K == "assoc" || op.K == "assoc!" || op.K == "assoc-same" {
 			k := mapKeys[op.I]
 			name, sym = k.name, k.sym
 			v = vint(8)
 			if !sym {
 				v = vint(9)
+			}
+			if op.K == "assoc-same" {
+				v = vint(op.J) // the value the key already has
 			}
 		}
 		mut := op.K == "assoc!" || op.K == "assoc!-store"
@@ -755,15 +823,15 @@ func alphabet(w *world, al alpha) []Op {
 			}
 		case kMap:
 			if full {
-				for i := range mapKeys {
+				for i := 0; i < nWriteKeys; i++ {
 					add("assoc", a, -1, i, 0)
 					add("assoc!", a, -1, i, 0)
 				}
-				for i := 0; i < 5; i++ {
+				for _, i := range []int{0, 1, 2, 3, 4, keyAbsSym, keyAbsStr} {
 					add("dissoc", a, -1, i, 0)
 					add("dissoc!", a, -1, i, 0)
 				}
-				for i := 0; i < 6; i++ {
+				for _, i := range []int{0, 1, 2, 3, 4, 5, keyAbsSym, keyAbsStr} {
 					add("get", a, -1, i, 0)
 				}
 				add("vector-of", a, -1, 0, 0)
@@ -832,6 +900,83 @@ func alphabet(w *world, al alpha) []Op {
 				if mid {
 					add("assoc-store", a, b, 0, 0)
 				}
+			}
+		}
+	}
+	return ops
+}
+
+// isConstructor / returnsArgument classify operations for the no-op family.
+func (op Op) isConstructor() bool { return op.A < 0 }
+
+// returnsArgument: operations DOCUMENTED to hand back an existing value (a
+// name, a stored element, bytes "returned as-is").
+func (op Op) returnsArgument() bool {
+	switch op.K {
+	case "alias", "to-bytes", "nth", "get", "get-k":
+		return true
+	}
+	return false
+}
+
+var noopShapes = []string{"c-list", "c-vector", "c-lit", "c-bytes", "c-map",
+	"c-list0", "c-vector0", "c-vector4", "c-assoc-nil", "c-get-nil",
+	"c-list1", "c-vector1", "c-list-sorted", "c-vector-sorted", "c-lit-sorted", "c-bytes0", "c-map0"}
+
+// alphabetNoop is the alphabet of the "no-op fast path returns its argument"
+// family: histories  <shape> ; <non-mutating operation> ; <in-place
+// operation>+ .  Step 1 builds every argument shape (including the ones on
+// which a non-mutating operation has nothing to do: empty, one element,
+// already sorted, key absent, key present with the same value, nothing to
+// append); step 2 applies every non-mutating operation of the full alphabet
+// plus the explicit no-op argument shapes; from step 3 on every in-place
+// operation is applied to the result AND (a separate history) to the source,
+// and the other one is re-inspected like every live value.
+func alphabetNoop(w *world) []Op {
+	var ops []Op
+	add := func(k string, a, b, i, j int) { ops = append(ops, Op{K: k, A: a, B: b, I: i, J: j}) }
+	full := alpha{level: 2, maxVars: 6}
+	switch {
+	case len(w.vars) == 0:
+		for _, k := range noopShapes {
+			add(k, -1, -1, 0, 0)
+		}
+	case len(w.vars) == 1:
+		for _, op := range alphabet(w, full) {
+			if !op.isConstructor() && !op.mutating() && !op.returnsArgument() {
+				ops = append(ops, op)
+			}
+		}
+		v := w.vars[0]
+		if v.t != tRef {
+			return ops
+		}
+		o := w.o(v)
+		switch o.k {
+		case kList, kVec:
+			for _, k := range []string{"concat-list-e", "concat-vector-e", "select-all-list", "select-all-vector",
+				"reject-none-list", "reject-none-vector"} {
+				add(k, 0, -1, 0, 0)
+			}
+		case kBytes:
+			for _, k := range []string{"append-bytes-t0", "append-bytes-str0", "concat-bytes-e"} {
+				add(k, 0, -1, 0, 0)
+			}
+		case kMap:
+			for ki := 0; ki < nWriteKeys; ki++ {
+				if i := o.find(mapKeys[ki].name); i >= 0 && o.ents[i].v.t == tInt {
+					add("assoc-same", 0, -1, ki, o.ents[i].v.n)
+				}
+			}
+		}
+	default:
+		for _, op := range alphabet(w, full) {
+			switch op.K {
+			case "append!-list-err", "append!-bytes-err", "append-bytes!-err":
+				continue
+			}
+			if op.mutating() {
+				ops = append(ops, op)
 			}
 		}
 	}
